@@ -21,6 +21,7 @@ type listKind struct {
 	XKind    string          // kind of x and y
 	Wrap     func(i int, body string) string
 	OneLine  bool // only the single-line layout exists (return statements)
+	Implicit bool // top-level statement pattern: implicit elision before and after
 	MaxWords int
 }
 
@@ -29,52 +30,56 @@ func commaElems(m map[byte]string) map[byte]string { return m }
 var listKinds = []listKind{
 	{Name: "call-args", PatKind: "expr", Ctx: "args", Sep: ",", XKind: "expression",
 		Head: func(int) string { return "tgt(" }, Tail: []string{")"},
-		Elem: map[byte]string{'a': "a", 'b': "b", 'c': "c", 'p': "p", 'q': "q", 'x': "«x»", 'y': "«y»"},
+		Elem: map[byte]string{'a': "a", 'b': "b", 'c': "c", 'z': "z", 'p': "p", 'q': "q", 'x': "«x»", 'y': "«y»"},
 		Wrap: func(i int, b string) string { return "\t" + b + "\n" }},
 	{Name: "composite-unkeyed", PatKind: "expr", Ctx: "elts", Sep: ",", XKind: "expression",
 		Head: func(int) string { return "Tgt{" }, Tail: []string{"}"},
-		Elem: map[byte]string{'a': "a", 'b': "b", 'c': "c", 'p': "p", 'q': "q", 'x': "«x»", 'y': "«y»"},
+		Elem: map[byte]string{'a': "a", 'b': "b", 'c': "c", 'z': "z", 'p': "p", 'q': "q", 'x': "«x»", 'y': "«y»"},
 		Wrap: func(i int, b string) string { return "\t_ = " + b + "\n" }},
 	{Name: "composite-keyed", PatKind: "expr", Ctx: "kv", Sep: ",", XKind: "expression",
 		Head: func(int) string { return "Tgt{" }, Tail: []string{"}"},
-		Elem: map[byte]string{'a': "Ka: 1", 'b': "Kb: 2", 'c': "Kc: 3", 'p': "Kp: 7", 'q': "Kq: 8", 'x': "«x»", 'y': "«y»"},
+		Elem: map[byte]string{'a': "Ka: 1", 'b': "Kb: 2", 'c': "Kc: 3", 'z': "Kz: 9", 'p': "Kp: 7", 'q': "Kq: 8", 'x': "«x»", 'y': "«y»"},
 		Wrap: func(i int, b string) string { return "\t_ = " + b + "\n" }},
 	{Name: "params-unnamed", PatKind: "decl", Ctx: "params", Sep: ",", XKind: "expression",
 		Head: func(i int) string { return fmt.Sprintf("func «f»(") }, Tail: []string{") {", "}"},
-		Elem:  map[byte]string{'a': "TA", 'b': "TB", 'c': "TC", 'p': "TP", 'q': "TQ", 'x': "«x»", 'y': "«y»"},
+		Elem:  map[byte]string{'a': "TA", 'b': "TB", 'c': "TC", 'z': "TZ", 'p': "TP", 'q': "TQ", 'x': "«x»", 'y': "«y»"},
 		Meta:  []gen.MetaVar{{Name: "f", Kind: "identifier"}},
 		Wrap:  func(i int, b string) string { return b + "\n\n" }},
 	{Name: "params-named", PatKind: "decl", Ctx: "nparams", Sep: ",", XKind: "identifier",
 		Head: func(i int) string { return "func «f»(" }, Tail: []string{") {", "}"},
-		Elem:  map[byte]string{'a': "pa TA", 'b': "pb TB", 'c': "pc TC", 'p': "pp TP", 'q': "pq TQ", 'x': "«x» TX", 'y': "«y» TX"},
+		Elem:  map[byte]string{'a': "pa TA", 'b': "pb TB", 'c': "pc TC", 'z': "pz TZ", 'p': "pp TP", 'q': "pq TQ", 'x': "«x» TX", 'y': "«y» TX"},
 		Meta:  []gen.MetaVar{{Name: "f", Kind: "identifier"}},
 		Wrap:  func(i int, b string) string { return b + "\n\n" }},
 	{Name: "results-unnamed", PatKind: "decl", Ctx: "results", Sep: ",", XKind: "expression",
 		Head: func(i int) string { return "func «f»() (" }, Tail: []string{") {", "}"},
-		Elem:  map[byte]string{'a': "TA", 'b': "TB", 'c': "TC", 'p': "TP", 'q': "TQ", 'x': "«x»", 'y': "«y»"},
+		Elem:  map[byte]string{'a': "TA", 'b': "TB", 'c': "TC", 'z': "TZ", 'p': "TP", 'q': "TQ", 'x': "«x»", 'y': "«y»"},
 		Meta:  []gen.MetaVar{{Name: "f", Kind: "identifier"}},
 		Wrap:  func(i int, b string) string { return b + "\n\n" }},
 	{Name: "struct-fields", PatKind: "decl", Ctx: "fields", Sep: "", XKind: "identifier",
 		Head: func(i int) string { return "type «N» struct {" }, Tail: []string{"}"},
-		Elem:  map[byte]string{'a': "FA int", 'b': "FB int", 'c': "FC int", 'p': "FP int", 'q': "FQ int", 'x': "«x» string", 'y': "«y» string"},
+		Elem:  map[byte]string{'a': "FA int", 'b': "FB int", 'c': "FC int", 'z': "FZ int", 'p': "FP int", 'q': "FQ int", 'x': "«x» string", 'y': "«y» string"},
 		Meta:  []gen.MetaVar{{Name: "N", Kind: "identifier"}},
 		Wrap:  func(i int, b string) string { return b + "\n\n" }},
 	{Name: "interface-methods", PatKind: "decl", Ctx: "methods", Sep: "", XKind: "identifier",
 		Head: func(i int) string { return "type «N» interface {" }, Tail: []string{"}"},
-		Elem:  map[byte]string{'a': "MA()", 'b': "MB()", 'c': "MC()", 'p': "MP()", 'q': "MQ()", 'x': "«x»(int)", 'y': "«y»(int)"},
+		Elem:  map[byte]string{'a': "MA()", 'b': "MB()", 'c': "MC()", 'z': "MZ()", 'p': "MP()", 'q': "MQ()", 'x': "«x»(int)", 'y': "«y»(int)"},
 		Meta:  []gen.MetaVar{{Name: "N", Kind: "identifier"}},
 		Wrap:  func(i int, b string) string { return b + "\n\n" }},
 	{Name: "block-stmts", PatKind: "stmts", Ctx: "stmts", Sep: "", XKind: "identifier",
 		Head: func(i int) string { return "if tgt {" }, Tail: []string{"}"},
-		Elem: map[byte]string{'a': "sa()", 'b': "sb()", 'c': "sc()", 'p': "sp()", 'q': "sq()", 'x': "«x»(1)", 'y': "«y»(1)"},
+		Elem: map[byte]string{'a': "sa()", 'b': "sb()", 'c': "sc()", 'z': "sz()", 'p': "sp()", 'q': "sq()", 'x': "«x»(1)", 'y': "«y»(1)"},
 		Wrap: func(i int, b string) string { return fmt.Sprintf("func t%d() {\n%s\n}\n\n", i, b) }},
 	{Name: "case-body", PatKind: "stmts", Ctx: "stmts", Sep: "", XKind: "identifier",
 		Head: func(i int) string { return "switch tgt {\ncase 1:" }, Tail: []string{"}"},
-		Elem: map[byte]string{'a': "sa()", 'b': "sb()", 'c': "sc()", 'p': "sp()", 'q': "sq()", 'x': "«x»(1)", 'y': "«y»(1)"},
+		Elem: map[byte]string{'a': "sa()", 'b': "sb()", 'c': "sc()", 'z': "sz()", 'p': "sp()", 'q': "sq()", 'x': "«x»(1)", 'y': "«y»(1)"},
+		Wrap: func(i int, b string) string { return fmt.Sprintf("func t%d() {\n%s\n}\n\n", i, b) }},
+	{Name: "stmts-implicit-dots", PatKind: "stmts", Ctx: "stmts", Sep: "", XKind: "identifier", Implicit: true,
+		Head: func(i int) string { return "" }, Tail: nil,
+		Elem: map[byte]string{'a': "sa()", 'b': "sb()", 'c': "sc()", 'z': "sz()", 'p': "sp()", 'q': "sq()", 'x': "«x»(1)", 'y': "«y»(1)"},
 		Wrap: func(i int, b string) string { return fmt.Sprintf("func t%d() {\n%s\n}\n\n", i, b) }},
 	{Name: "return-values", PatKind: "stmts", Ctx: "rets", Sep: ",", XKind: "expression", OneLine: true,
 		Head: func(i int) string { return "return " }, Tail: nil,
-		Elem: map[byte]string{'a': "a", 'b': "b", 'c': "c", 'p': "p", 'q': "q", 'x': "«x»", 'y': "«y»"},
+		Elem: map[byte]string{'a': "a", 'b': "b", 'c': "c", 'z': "z", 'p': "p", 'q': "q", 'x': "«x»", 'y': "«y»"},
 		Wrap: func(i int, b string) string { return fmt.Sprintf("func t%d() {\n%s\n}\n\n", i, b) }},
 }
 
@@ -124,9 +129,42 @@ func targetWords(max int) []string {
 	return out
 }
 
+// longSectionWords: sections of 3-4 explicit elements between elisions (and with an explicit
+// element before or after), where partial matches overlap with the real one.
+func longSectionWords() []string {
+	var out []string
+	for l := 3; l <= 4; l++ {
+		for m := 0; m < 1<<l; m++ {
+			s := ""
+			for i := 0; i < l; i++ {
+				s += string("ab"[(m>>i)&1])
+			}
+			out = append(out, "D"+s+"D", "aD"+s+"D", "D"+s+"Db", s+"D", "D"+s)
+		}
+	}
+	return out
+}
+
+// twoLetterTargets enumerates every list over {a, b} of length 0..max.
+func twoLetterTargets(max int) []string {
+	out := []string{""}
+	prev := []string{""}
+	for l := 1; l <= max; l++ {
+		var cur []string
+		for _, p := range prev {
+			cur = append(cur, p+"a", p+"b")
+		}
+		out = append(out, cur...)
+		prev = cur
+	}
+	return out
+}
+
 var (
-	c04Words   = patternWords()
-	c04Targets = targetWords(5)
+	c04Words    = append(patternWords(), longSectionWords()...)
+	c04NumShort = len(patternWords())
+	c04Targets  = targetWords(5)
+	c04Targets2 = twoLetterTargets(8)
 )
 
 // plusOf maps the explicit elements of a pattern word to the plus side.
@@ -163,6 +201,10 @@ func plusOf(w string, variant int) string {
 
 // buildListChange renders pattern word w for list kind k.
 func buildListChange(k *listKind, w string, variant int, oneLine bool) *gen.Change {
+	bare := variant == 2 // context lines without the optional leading space and indentation
+	if bare {
+		variant = 0
+	}
 	c := &gen.Change{Kind: k.PatKind, Schema: "c04-" + k.Name}
 	c.Meta = append(c.Meta, k.Meta...)
 	if strings.Contains(w, "x") {
@@ -186,6 +228,7 @@ func buildListChange(k *listKind, w string, variant int, oneLine bool) *gen.Chan
 		return els
 	}
 	me, pe := render(w), render(pw)
+	marker := k.Elem['z'] // appended to the '+' side so that every match is observable
 	if oneLine {
 		sep := k.Sep + " "
 		if k.Sep == "" {
@@ -194,20 +237,27 @@ func buildListChange(k *listKind, w string, variant int, oneLine bool) *gen.Chan
 		tail := strings.Join(k.Tail, " ")
 		c.Lines = []gen.Line{
 			gen.L('-', k.Head(0)+strings.Join(me, sep)+tail),
-			gen.L('+', k.Head(0)+strings.Join(pe, sep)+tail),
+			gen.L('+', k.Head(0)+strings.Join(append(append([]string{}, pe...), marker), sep)+tail),
 		}
 		return c
 	}
 	for _, h := range strings.Split(k.Head(0), "\n") {
-		c.Lines = append(c.Lines, gen.L(' ', h))
+		if h != "" {
+			c.Lines = append(c.Lines, gen.L(' ', h))
+		}
 	}
 	for i := range me {
 		if me[i] == pe[i] {
-			c.Lines = append(c.Lines, gen.L(' ', "  "+me[i]+k.Sep))
+			if bare {
+				c.Lines = append(c.Lines, gen.L(0, me[i]+k.Sep))
+			} else {
+				c.Lines = append(c.Lines, gen.L(' ', "  "+me[i]+k.Sep))
+			}
 		} else {
 			c.Lines = append(c.Lines, gen.L('-', "  "+me[i]+k.Sep), gen.L('+', "  "+pe[i]+k.Sep))
 		}
 	}
+	c.Lines = append(c.Lines, gen.L('+', "  "+marker+k.Sep))
 	for _, t := range k.Tail {
 		c.Lines = append(c.Lines, gen.L(' ', t))
 	}
@@ -250,9 +300,9 @@ func init() {
 	core.Register(&core.Prop{
 		ID:    "C04",
 		Level: "exploration",
-		Rule: "exhaustive table: for each of 11 list kinds (call arguments, unkeyed and keyed composite elements, unnamed and named parameters, results, struct fields, interface methods, " +
+		Rule: "small-scope table (thorough tier: complete; quick tier: complete for a third of the list kinds rotating with the seed plus the implicit-elision kind, every 4th pattern word for the rest): for each of 12 list kinds (the 12th is a top-level statement pattern with its implicit leading/trailing elision) (call arguments, unkeyed and keyed composite elements, unnamed and named parameters, results, struct fields, interface methods, " +
 			"block statements, case bodies, return values) every pattern word over {a, b, metavariable x, y (repeats included), '...'} of length 1..4 with 1..3 non-adjacent elisions " +
-			"is applied to every target list over {a,b,c} of length 0..5 (364 lists batched in one file); both layouts (elisions on context lines; single-line '-'/'+' when there is one elision); " +
+			"is applied to every target list over {a,b,c} of length 0..5 (364 lists batched in one file); additionally every word with a section of 3-4 explicit elements from {a,b} next to elisions (D s D, a D s D, D s D b, s D, D s) against every list over {a,b} of length 0..8 (511 lists), where partial matches overlap the real one; both layouts (elisions on context lines; single-line '-'/'+' when there is one elision); " +
 			"'for ... {' against all loop header shapes; plus random longer lists. The output of every run is compared with the reference list matching (full backtracking, leftmost-shortest) " +
 			"and run reproduction. non-trivial = pattern has >=1 elision (all are); distinct = (list kind, layout, pattern word, target word).",
 		Assumptions: []string{
@@ -261,7 +311,7 @@ func init() {
 		},
 		Cases:      c04Cases,
 		Floor:      func(string) int { return 100000 },
-		Exhaustive: func(string) bool { return true },
+		Exhaustive: func(tier string) bool { return tier == "thorough" },
 		Run:        runC04,
 	})
 }
@@ -270,6 +320,14 @@ func runC04(ctx *core.Ctx, idx int) *core.Result {
 	res := &core.Result{}
 	k := &listKinds[idx%len(listKinds)]
 	w := c04Words[idx/len(listKinds)]
+	if ctx.Tier != "thorough" {
+		// quick: the whole table for a third of the list kinds (rotating with the seed) and for
+		// the implicit-elision kind, every 4th pattern word for the others
+		full := k.Implicit || (idx%len(listKinds)+int(ctx.Seed%3+3))%3 == 0
+		if !full && (idx/len(listKinds))%4 != 0 {
+			return res
+		}
+	}
 	r := ctx.Rand("c04", idx)
 	nd := strings.Count(w, "D")
 	type layout struct {
@@ -282,14 +340,21 @@ func runC04(ctx *core.Ctx, idx int) *core.Result {
 		if strings.Contains(w, "y") {
 			layouts = append(layouts, layout{false, 1})
 		}
+		if k.Implicit {
+			layouts = append(layouts, layout{false, 2})
+		}
 	}
 	if nd == 1 && !strings.Contains(k.Head(0), "\n") {
 		layouts = append(layouts, layout{true, 0})
 	}
-	if len(layouts) == 0 {
+	if len(layouts) == 0 || (k.Implicit && strings.Trim(w, "D") == "") {
 		return res
 	}
-	src := targetFile(k, c04Targets)
+	targets := c04Targets
+	if idx/len(listKinds) >= c04NumShort {
+		targets = c04Targets2
+	}
+	src := targetFile(k, targets)
 	// random longer lists
 	var long []string
 	for i := 0; i < 40; i++ {
@@ -306,13 +371,13 @@ func runC04(ctx *core.Ctx, idx int) *core.Result {
 		viaCLI := (idx+li)%16 == 0
 		before := len(res.Viol)
 		semBatch(ctx, idx, res, c, []string{src, srcLong}, nil, viaCLI, "C04")
-		res.Evals += len(c04Targets) + len(long) - 2
+		res.Evals += len(targets) + len(long) - 2
 		if len(res.Viol) == before {
-			for _, t := range c04Targets {
+			for _, t := range targets {
 				res.Sig(k.Name, lo.oneLine, lo.variant, w, t)
 			}
 		}
-		res.Ob("pattern-x-target pairs", len(c04Targets)+len(long))
+		res.Ob("pattern-x-target pairs", len(targets)+len(long))
 	}
 	// for ... { against every loop header shape
 	if idx < len(listKinds) {
